@@ -94,15 +94,28 @@ def jBoundsRate (N lag : Int) : JBounds :=
     negXRowLo := ArithC07.jrpRateNegXRowLo N lag, negXRowHi := ArithC07.jrpRateNegXRowHi N lag,
     negXColLo := ArithC07.jrpRateNegXColLo N lag, negXColHi := ArithC07.jrpRateNegXColHi N lag }
 
+/-- `JointRecurrencePlot.__init__`, "prune embedded time series to same length":
+`min_N = min(x_embedded.shape[0], y_embedded.shape[0])`, `x_embedded[:min_N, :]`,
+`y_embedded[:min_N, :]` — `min_N` and both slice bounds generated from the source -/
+def jointPruned (ex ey : List (List V)) : List (List V) × List (List V) :=
+  let minN := ArithC07.jrpMinN ex.length ey.length
+  (pySlice ex 0 (ArithC07.jrpPruneXHi minN), pySlice ey 0 (ArithC07.jrpPruneYHi minN))
+
+/-- the two guards of `JointRecurrencePlot.__init__` (both generated): the raw series must have
+the same length, and `|lag|` must not exceed it — else `ValueError` -/
+def jointGuard (nRaw nRawY : Nat) (lag : Int) : Bool :=
+  ArithC07.jrpSameLength nRaw nRawY && !ArithC07.jrpLagTooLarge lag nRaw
+
 /-- `JointRecurrencePlot.__init__` + `set_fixed_threshold` / `set_fixed_recurrence_rate`:
 prune both embeddings to the common length, threshold each with its own metric,
-multiply the shifted sub-blocks; `nRaw` is `x.shape[0]` (the lag guard uses it). -/
-def jointPlot (mx my : Metric) (ex ey : List (List V)) (nRaw : Nat) (lag : Int)
+multiply the shifted sub-blocks; `nRaw`, `nRawY` are `x.shape[0]`, `y.shape[0]`. -/
+def jointPlot (mx my : Metric) (ex ey : List (List V)) (nRaw nRawY : Nat) (lag : Int)
     (sx sy : Spec) : Res Plot :=
-  let n := min ex.length ey.length
-  let ex := ex.take n
-  let ey := ey.take n
-  if lag.natAbs > nRaw then .valueError else
+  let pr := jointPruned ex ey
+  let n := pr.1.length
+  let ex := pr.1
+  let ey := pr.2
+  if !jointGuard nRaw nRawY lag then .valueError else
   match sx, sy with
   | .thr e1, .thr e2 =>
     let Rx := threshold (distRP mx ex) (some (unitThr mx e1))
@@ -196,12 +209,13 @@ def adaptivePlot (m : Metric) (emb : List (List V)) (kA : Nat) (order : Option (
 
 /-- `JointRecurrencePlot.set_fixed_threshold_std`: thresholds `s·std(x)`, `s'·std(y)` of the
 stored (un-embedded, un-pruned) series, then the same composition as `set_fixed_threshold` -/
-def jointPlotStd (mx my : Metric) (sX sY ex ey : List (List V)) (nRaw : Nat) (lag : Int)
+def jointPlotStd (mx my : Metric) (sX sY ex ey : List (List V)) (nRaw nRawY : Nat) (lag : Int)
     (s1 s2 : Rat) : Res Plot :=
-  let n := min ex.length ey.length
-  let ex := ex.take n
-  let ey := ey.take n
-  if lag.natAbs > nRaw then .valueError else
+  let pr := jointPruned ex ey
+  let n := pr.1.length
+  let ex := pr.1
+  let ey := pr.2
+  if !jointGuard nRaw nRawY lag then .valueError else
   let Rx := thresholdSq mx (distRP mx ex) (stdThrSq s1 (varV sX.flatten))
   let Ry := thresholdSq my (distRP my ey) (stdThrSq s2 (varV sY.flatten))
   (Res.valueError.ofOption (jointSlices Rx Ry lag (jBoundsThr n lag))).bind fun JR =>
